@@ -23,7 +23,7 @@ from vp import case as vcase
 from vp import env
 
 HERE = env.VERIF_ROOT
-MAX_SIGS = 5
+MAX_SIGS = 8
 
 
 class Out:
@@ -87,6 +87,8 @@ def _classify_exception(exc):
     tb = traceback.extract_tb(exc.__traceback__)
     root = env.armi_root() + os.sep
     for fr in reversed(tb):
+        if not os.path.isabs(fr.filename):
+            continue  # e.g. h5py's relative .pyx frame names: neither armi nor harness code
         fn = os.path.abspath(fr.filename)
         if fn.startswith(root):
             rel = fn[len(root) :]
